@@ -16,28 +16,43 @@ open Spec
 
 /-! ### parseLoop: one uniform unfolding -/
 
-theorem peel_nil : peel [] = ([], none, []) := by
-  simp [peel, findCsi, findEsc2]
+theorem peelMatch_nil : peelMatch [] = ([], none, []) := by
+  simp [peelMatch, findCsi, findEsc2]
 
-theorem parseLoop_nil : parseLoop [] = .ok [] := by
+theorem peel_nil (md : Nat) : peel md [] = .ok ([], none, []) := by
+  simp [peel, peelMatch_nil, postToken]
+
+theorem parseLoop_nil (md : Nat) : parseLoop md [] = .ok [] := by
   rw [parseLoop]
-  simp [peel_nil, tokenItems]
+  split
+  · rename_i e hp; rw [peel_nil] at hp; cases hp
+  · rename_i r hp
+    rw [peel_nil] at hp; cases hp
+    simp [tokenItems]
 
-theorem parseLoop_eq (s : Text) : parseLoop s =
-    match tokenItems (peel s).2.1 with
+theorem parseLoop_eq (md : Nat) (s : Text) : parseLoop md s =
+    match peel md s with
     | .error e => .error e
-    | .ok toks =>
-      match parseLoop (peel s).2.2 with
+    | .ok r =>
+      match tokenItems r.2.1 with
       | .error e => .error e
-      | .ok more => .ok ((if (peel s).1.isEmpty then [] else [.str (peel s).1]) ++ toks ++ more) := by
+      | .ok toks =>
+        match parseLoop md r.2.2 with
+        | .error e => .error e
+        | .ok more => .ok ((if r.1.isEmpty then [] else [.str r.1]) ++ toks ++ more) := by
   conv => lhs; rw [parseLoop]
-  cases hT : tokenItems (peel s).2.1 with
-  | error e => rfl
-  | ok toks =>
-    by_cases h : (peel s).2.2 = []
-    · simp [h, parseLoop_nil]
-    · simp only [dif_neg h]
-      cases parseLoop (peel s).2.2 <;> rfl
+  split
+  · rename_i e hp; rw [hp]
+  · rename_i r hp
+    rw [hp]
+    simp only []
+    cases hT : tokenItems r.2.1 with
+    | error e => rfl
+    | ok toks =>
+      by_cases h : r.2.2 = []
+      · simp [h, parseLoop_nil]
+      · simp only [dif_neg h]
+        cases parseLoop md r.2.2 <;> rfl
 
 /-- Text of the `str` elements of a parse result. -/
 def itemsText : List Item → Text
@@ -203,6 +218,112 @@ theorem Strips.keeps {s t : Text} (h : Strips s t) (st : ScanSt) : (ordinaryFrom
 
 
 
+
+/-! ### the same facts position by position (`marksFrom`, `Aligned`) -/
+
+theorem marksFrom_append (st : ScanSt) (f x : Text) :
+    marksFrom st (f ++ x) = marksFrom st f ++ marksFrom (stateAfter st f) x := by
+  induction f generalizing st with
+  | nil => rfl
+  | cons c r ih => simp only [List.cons_append, marksFrom, stateAfter, ih]
+
+theorem marks_params (ps : Text) (h : ∀ x ∈ ps, isParam x = true) (r : Text) :
+    marksFrom .csiParam (ps ++ r) = List.replicate ps.length true ++ marksFrom .csiParam r := by
+  induction ps with
+  | nil => rfl
+  | cons c cs ih =>
+    have hc := h c (by simp)
+    have : scanStep .csiParam c = (true, .csiParam) := by
+      simp only [isParam, Bool.and_eq_true, decide_eq_true_eq] at hc
+      simp [scanStep, inRange, hc]
+    simp only [List.cons_append, marksFrom, this, List.length_cons, List.replicate_succ]
+    rw [ih (fun x hx => h x (by simp [hx]))]
+
+theorem marks_final (st : ScanSt) (hst : st = .csiParam ∨ st = .csiInter) (c : Char) (hc : isFinal c = true)
+    (r : Text) : marksFrom st (c :: r) = true :: marksFrom .ground r := by
+  simp only [isFinal, Bool.and_eq_true, decide_eq_true_eq] at hc
+  have h1 : inRange 0x30 0x3f c = false := by simp [inRange]; omega
+  have h2 : inRange 0x20 0x2f c = false := by simp [inRange]; omega
+  have h3 : inRange 0x40 0x7e c = true := by simp [inRange]; omega
+  rcases hst with rfl | rfl <;> simp [marksFrom, scanStep, h1, h2, h3]
+
+theorem marks_inter (st : ScanSt) (hst : st = .csiParam ∨ st = .csiInter) (is : Text)
+    (h : ∀ x ∈ is, isIntermed x = true) (c : Char) (hc : isFinal c = true) (r : Text) :
+    marksFrom st (is ++ c :: r) = List.replicate (is.length + 1) true ++ marksFrom .ground r := by
+  induction is generalizing st with
+  | nil => exact marks_final st hst c hc r
+  | cons i is ih =>
+    have hi := h i (by simp)
+    simp only [isIntermed, Bool.and_eq_true, decide_eq_true_eq] at hi
+    have h1 : inRange 0x30 0x3f i = false := by simp [inRange]; omega
+    have h2 : inRange 0x20 0x2f i = true := by simp [inRange]; omega
+    have : scanStep st i = (true, .csiInter) := by
+      rcases hst with rfl | rfl <;> simp [scanStep, h1, h2]
+    simp only [List.cons_append, marksFrom, this, List.length_cons]
+    rw [ih .csiInter (.inr rfl) (fun x hx => h x (by simp [hx]))]
+    simp [List.replicate_succ]
+
+/-- An escape sequence of the parser, met in ANY scanner state: every one of its characters is marked. -/
+theorem marks_isSeq {q : Text} (hq : IsSeq q) (st : ScanSt) (r : Text) :
+    ∃ st', marksFrom st (q ++ r) = List.replicate q.length true ++ marksFrom st' r := by
+  cases hq with
+  | csi7 ps is c hp hi hc =>
+    refine ⟨.ground, ?_⟩
+    simp only [List.cons_append, List.nil_append, List.append_assoc, marksFrom, scan_esc, scan_bracket]
+    rw [marks_params ps hp, marks_inter .csiParam (.inl rfl) is hi c hc r]
+    simp [List.replicate_succ, ← List.replicate_append_replicate]
+  | csi8 ps is c hp hi hc =>
+    refine ⟨.ground, ?_⟩
+    simp only [List.cons_append, List.nil_append, List.append_assoc, marksFrom, scan_csi8]
+    rw [marks_params ps hp, marks_inter .csiParam (.inl rfl) is hi c hc r]
+    simp [List.replicate_succ, ← List.replicate_append_replicate]
+  | esc2 c hc =>
+    simp only [List.cons_append, List.nil_append, marksFrom, scan_esc]
+    by_cases hb : c = '['
+    · subst hb; exact ⟨.csiParam, by simp [scan_bracket, List.replicate_succ]⟩
+    · refine ⟨.ground, ?_⟩
+      simp only [isFe, Bool.and_eq_true, decide_eq_true_eq] at hc
+      have h2 : inRange 0x20 0x2f c = false := by simp [inRange]; omega
+      have h3 : inRange 0x30 0x7e c = true := by simp [inRange]; omega
+      simp [scanStep, hb, h2, h3, List.replicate_succ]
+
+theorem Aligned.refl (ms : List Bool) (s : Text) (h : ms.length = s.length) : Aligned ms s s := by
+  induction s generalizing ms with
+  | nil => cases ms with
+    | nil => exact .nil
+    | cons b ms => simp at h
+  | cons c s ih =>
+    cases ms with
+    | nil => simp at h
+    | cons b ms => exact .keep b c (ih ms (by simpa using h))
+
+theorem Aligned.dropAll (q : Text) : Aligned (List.replicate q.length true) q [] := by
+  induction q with
+  | nil => exact .nil
+  | cons c q ih => exact .drop c ih
+
+theorem Aligned.append {m1 m2 : List Bool} {s1 s2 t1 t2 : Text} (h1 : Aligned m1 s1 t1) (h2 : Aligned m2 s2 t2) :
+    Aligned (m1 ++ m2) (s1 ++ s2) (t1 ++ t2) := by
+  induction h1 with
+  | nil => exact h2
+  | keep b c _ ih => exact .keep b c ih
+  | drop c _ ih => exact .drop c ih
+
+theorem marksFrom_length (st : ScanSt) (s : Text) : (marksFrom st s).length = s.length := by
+  induction s generalizing st with
+  | nil => rfl
+  | cons c r ih => simp [marksFrom, ih]
+
+theorem Strips.aligned {s t : Text} (h : Strips s t) (st : ScanSt) : Aligned (marksFrom st s) s t := by
+  induction h generalizing st with
+  | done s => exact Aligned.refl _ s (marksFrom_length st s)
+  | step f q r t hq _ ih =>
+    rw [List.append_assoc, marksFrom_append]
+    obtain ⟨st', h'⟩ := marks_isSeq hq (stateAfter st f) r
+    rw [h']
+    have := Aligned.append (Aligned.dropAll q) (ih st')
+    exact Aligned.append (Aligned.refl _ f (marksFrom_length st f)) (by simpa using this)
+
 /-! ### what `peel` and `ansiLen` delete are such sequences -/
 
 theorem isDigit_isParam {c : Char} (h : isDigit c = true) : isParam c = true := by
@@ -330,10 +451,10 @@ theorem findEsc2_shape {s f rest : Text} {t : Token} (h : findEsc2 s = some (f, 
         exact ih hm
       · simp at h
 
-/-- `peel`, fully: a good token with `s = front ++ seq ++ rest`, or `(s, None, "")`. -/
-theorem peel_cases (s : Text) :
-    (∃ f t r, peel s = (f, some t, r) ∧ s = f ++ t.seq ++ r ∧ t.Good) ∨ peel s = (s, none, []) := by
-  unfold peel
+/-- the chosen match: a good token with `s = front ++ seq ++ rest`, or `(s, None, "")`. -/
+theorem peelMatch_cases (s : Text) :
+    (∃ f t r, peelMatch s = (f, some t, r) ∧ s = f ++ t.seq ++ r ∧ t.Good) ∨ peelMatch s = (s, none, []) := by
+  unfold peelMatch
   split
   · rename_i f1 t1 r1 f2 t2 r2 h1 h2
     split
@@ -344,6 +465,67 @@ theorem peel_cases (s : Text) :
   · rename_i f2 t2 r2 _ h2
     exact .inl ⟨f2, t2, r2, rfl, (findEsc2_spec h2).1, findEsc2_shape h2⟩
   · exact .inr rfl
+
+theorem intsOf_error {md : Nat} {l : List Text} {e : PyErr} (h : intsOf md l = .error e) : e = .valueError := by
+  induction l with
+  | nil => cases h
+  | cons p ps ih =>
+    unfold intsOf at h
+    split at h
+    · rename_i e' he
+      cases h
+      unfold intOf at he
+      split at he
+      · cases he; rfl
+      · cases he
+    · split at h
+      · rename_i e' he; cases h; exact ih he
+      · cases h
+
+theorem postNumbers_error {md : Nat} {n : Text} {e : PyErr} (h : postNumbers md n = .error e) : e = .valueError := by
+  unfold postNumbers at h
+  simp only [] at h
+  split at h
+  · split at h
+    · rename_i e' he; cases h; exact intsOf_error he
+    · cases h
+  · cases h
+
+/-- `peel_off_esc_code`, fully: the ValueError of `int()`, or a good token with `s = front ++ seq ++ rest`,
+    or `(s, None, "")`. -/
+theorem peel_cases (md : Nat) (s : Text) :
+    peel md s = .error .valueError ∨
+    (∃ f t r, peel md s = .ok (f, some t, r) ∧ s = f ++ t.seq ++ r ∧ t.Good) ∨
+    peel md s = .ok (s, none, []) := by
+  unfold peel
+  rcases peelMatch_cases s with ⟨f, t, r, hp, hs, hg⟩ | hp
+  · rw [hp]
+    simp only []
+    cases hn : t.numbers with
+    | none =>
+      have : postToken md (some t) = .ok (some t) := by simp [postToken, hn]
+      rw [this]
+      exact .inr (.inl ⟨f, t, r, rfl, hs, hg⟩)
+    | some nn =>
+      cases nn with
+      | ints l =>
+        have : postToken md (some t) = .ok (some t) := by simp [postToken, hn]
+        rw [this]
+        exact .inr (.inl ⟨f, t, r, rfl, hs, hg⟩)
+      | raw nums =>
+        cases hN : postNumbers md nums with
+        | error e =>
+          have := postNumbers_error hN
+          subst this
+          have : postToken md (some t) = .error .valueError := by simp [postToken, hn, hN]
+          rw [this]
+          exact .inl rfl
+        | ok v =>
+          have : postToken md (some t) = .ok (some { t with numbers := some v }) := by simp [postToken, hn, hN]
+          rw [this]
+          exact .inr (.inl ⟨f, _, r, rfl, hs, ⟨hg.1, .inl rfl⟩⟩)
+  · rw [hp]
+    exact .inr (.inr (by simp [postToken]))
 
 /-- The only exception `token_type` raises on a token produced by `peel` is ValueError. -/
 theorem tokenType_error {t : Token} (ht : t.Good) {e : PyErr} (h : tokenType t = .error e) :
@@ -478,9 +660,9 @@ theorem removeAnsi_strips (s : Text) : Strips s (removeAnsi s) :=
 
 /-! ### parse -/
 
-theorem parseLoop_strips (n : Nat) : ∀ s : Text, s.length ≤ n →
-    (∀ its, parseLoop s = .ok its → Strips s (itemsText its)) ∧
-    (∀ e, parseLoop s = .error e → e = .valueError) := by
+theorem parseLoop_strips (md : Nat) (n : Nat) : ∀ s : Text, s.length ≤ n →
+    (∀ its, parseLoop md s = .ok its → Strips s (itemsText its)) ∧
+    (∀ e, parseLoop md s = .error e → e = .valueError) := by
   induction n with
   | zero =>
     intro s hs
@@ -491,7 +673,9 @@ theorem parseLoop_strips (n : Nat) : ∀ s : Text, s.length ≤ n →
   | succ n ih =>
     intro s hs
     rw [parseLoop_eq]
-    rcases peel_cases s with ⟨f, t, r, hp, hs', hg⟩ | hp
+    rcases peel_cases md s with hp | ⟨f, t, r, hp, hs', hg⟩ | hp
+    · rw [hp]
+      exact ⟨fun its h => (by cases h), fun e h => (by cases h; rfl)⟩
     · rw [hp]
       simp only []
       have hr : r.length ≤ n := by
@@ -507,35 +691,35 @@ theorem parseLoop_strips (n : Nat) : ∀ s : Text, s.length ≤ n →
         exact ⟨fun its h => (by cases h), fun e' h => (by cases h; exact tokenItems_error hg hT)⟩
       | ok toks =>
         simp only []
-        cases hP : parseLoop r with
+        cases hP : parseLoop md r with
         | error e =>
           simp only []
           exact ⟨fun its h => (by cases h), fun e' h => (by cases h; exact ih2 e hP)⟩
         | ok more =>
           simp only []
-          refine ⟨fun its h => ?_, fun e h => by cases h⟩
+          refine ⟨fun its h => ?_, fun e h => (by cases h)⟩
           cases h
           rw [itemsText_append, itemsText_append, itemsText_front, tokenItems_text hT, List.append_nil]
           conv => lhs; rw [hs']
           exact .step f t.seq r _ hg.1 (ih1 more hP)
     · rw [hp]
       simp only [tokenItems, parseLoop_nil]
-      refine ⟨fun its h => ?_, fun e h => by cases h⟩
+      refine ⟨fun its h => ?_, fun e h => (by cases h)⟩
       cases h
       rw [List.append_nil, List.append_nil, itemsText_front]
       exact .done _
 
-theorem parse_strips {s : Text} {its : List Item} (h : parse s = .ok its) : Strips s (itemsText its) :=
-  (parseLoop_strips s.length s (Nat.le_refl _)).1 its h
+theorem parse_strips {md : Nat} {s : Text} {its : List Item} (h : parse md s = .ok its) : Strips s (itemsText its) :=
+  (parseLoop_strips md s.length s (Nat.le_refl _)).1 its h
 
-theorem parse_error {s : Text} {e : PyErr} (h : parse s = .error e) : e = .valueError :=
-  (parseLoop_strips s.length s (Nat.le_refl _)).2 e h
+theorem parse_error {md : Nat} {s : Text} {e : PyErr} (h : parse md s = .error e) : e = .valueError :=
+  (parseLoop_strips md s.length s (Nat.le_refl _)).2 e h
 
 /-- `FmtStr.from_str` always returns, and its text is `s` with escape sequences deleted. -/
-theorem fromStr_strips (s : Text) : ∃ f, fromStr s = .ok f ∧ Strips s (text f) := by
+theorem fromStr_strips (md : Nat) (s : Text) : ∃ f, fromStr md s = .ok f ∧ Strips s (text f) := by
   unfold fromStr
   split
-  · cases hP : parse s with
+  · cases hP : parse md s with
     | ok items =>
       exact ⟨_, rfl, by rw [text_fromStrLoop]; exact parse_strips hP⟩
     | error e =>
